@@ -284,6 +284,10 @@ func (g *Gen) Primitive() *Schema {
 			s.Pattern = "^[a-c]+$"
 			g.hit("pattern")
 		}
+		if s.MaxLen != nil && s.MinLen == nil && g.R.Chance(1, 6) {
+			s.MaxLen = I(0) // a bound of zero is a bound
+			g.hit("maxLength:0")
+		}
 		if g.R.Chance(1, 8) {
 			s.Format = g.R.Pick(StringFormats)
 			s.MinLen, s.MaxLen, s.EnumS, s.Pattern = nil, nil, nil, ""
@@ -352,8 +356,8 @@ func (g *Gen) Schema(depth int) *Schema {
 			s.MinItems = I(int64(1 + g.R.Intn(2)))
 			g.hit("minItems")
 		case 1:
-			s.MaxItems = I(int64(1 + g.R.Intn(3)))
-			g.hit("maxItems")
+			s.MaxItems = I(int64(g.R.Intn(4)))
+			g.hit(fmt.Sprintf("maxItems:%d", *s.MaxItems))
 		case 2:
 			s.Unique = true
 			g.hit("uniqueItems")
